@@ -39,6 +39,10 @@ CLAIMS = {
   "Deductive: the real bodies of FortranWriter.binaryoperation_node and unaryoperation_node are symbolically executed for every operator of the node, every parent kind and operator, either child position and every grandparent (all symbolic; == on nodes an uninterpreted reflexive relation); postcondition from the Fortran 2008 expression grammar (R702-R722): the operation is parenthesised whenever the loosest operator it exposes binds less tightly than its position demands. Holds outside five recorded known classes (each its own obligation, each replayed through the real writer and reader); precedence() and the reversed operator map are executed (closed code) and used as tables. A bounded round trip (all trees of depth <= 2, real writer + real reader) stands in for 'reads back structurally equal'.",
   "Trusted: the hand-transcribed grammar levels; fparser2 implements the grammar; tagging assumption on operand texts. NOT under contract: literal_node (signed literals -- recorded finding --, kinds/precision), intrinsic/array/structure writers, the reader's handlers.",
   TECH + "; finite operator domains kept symbolic (enum If-chains), closed tables executed; bounded round trip as stand-in for the reader"),
+ "C13": ("proof",
+  "Deductive, over the abstract access view (real access types + ghost whole-variable/unconditional attributes): the real body of Directive.create_data_movement_deep_copy_refs is verified (loop invariant over the signatures) to put every non-scalar, non-structure variable in exactly one of copyin/copyout/copy such that: a variable whose incoming value can be read is in copyin or copy (outside the recorded known class), a modified one is in copyout or copy, copyin-only ones are not modified, copyout-only ones are written. Two known findings (open), both replayed through the real ACCDataTrans: partial first write then read => copyout only; partially written array => copyout.",
+  "Assumed: the access view is what reference_accesses returns (C11 link), accessors as hooks, every access reads or writes. NOT under contract: the structure (derived-type) deep-copy branch, ACCDataDirective._update_data_movement_clauses and the tree-update signal that refreshes clauses (seeded change C13b is missed for this reason), ACCDataTrans.validate.",
+  TECH + "; abstract access view with ghost attributes; run-time contract on the real ACCDataTrans for undecided obligations"),
 }
 
 NA = {
